@@ -59,8 +59,12 @@ def extract(repo=None, config="dev", crates=("stun_types", "stun_proto"), packag
     cdir = os.path.join(CACHE, key)
     use_cache = use_cache and os.environ.get("STUNLINT_NO_CACHE") != "1"
     if use_cache and all(os.path.exists(os.path.join(cdir, c + ".json")) for c in crates):
-        facts = {c: json.load(open(os.path.join(cdir, c + ".json"))) for c in crates}
-        return facts, {"cached": True, "wall_s": time.time() - t0, "tree_key": key, "config": config}
+        try:
+            facts = {c: json.load(open(os.path.join(cdir, c + ".json"))) for c in crates}
+            os.utime(cdir, None)
+            return facts, {"cached": True, "wall_s": time.time() - t0, "tree_key": key, "config": config}
+        except (OSError, ValueError):
+            pass      # entry pruned or half-written by a concurrent run: extract again
     extra_args, extra_flags = CONFIGS[config]
     tdir = tempfile.mkdtemp(prefix="stunlint-target-")
     odir = tempfile.mkdtemp(prefix="stunlint-facts-")
@@ -99,7 +103,7 @@ def extract(repo=None, config="dev", crates=("stun_types", "stun_proto"), packag
                 shutil.rmtree(tmpc, ignore_errors=True)
             # keep the cache small
             ents = sorted((os.path.getmtime(os.path.join(CACHE, e)), e) for e in os.listdir(CACHE))
-            for _, e in ents[:-12]:
+            for _, e in ents[:-48]:
                 shutil.rmtree(os.path.join(CACHE, e), ignore_errors=True)
     finally:
         shutil.rmtree(tdir, ignore_errors=True)
